@@ -33,6 +33,7 @@ class Contract:
         self.ghost = kw.pop("ghost", True)
         self.inline_calls = kw.pop("inline_calls", [])  # addrs inlined only while verifying this unit
         self.known = kw.pop("known", {})            # clause index -> known finding id
+        self.ghost_entry = kw.pop("ghost_entry", [])   # ghost statements executed at function entry (ghost.* only)
         self.hints = kw.pop("hints", [])            # instances of *proved lemmas* assumed at every exit
         if kw:
             raise TypeError("unknown contract keys %r" % list(kw))
@@ -67,10 +68,13 @@ class Registry:
         self.sym_fields = {}
         self.inline_loops = {}      # addr -> loops spec for inlined helpers with loops
         self.lemma_names = set()
+        self.assume_all = False     # while set, contracts are registered for call sites only (proved elsewhere)
         self.ctor_inline_limit = 400
 
     # -------- declaration API
     def contract(self, addr, **kw):
+        if self.assume_all:
+            kw["verify"] = False
         c = Contract(addr, **kw)
         key = c.addr
         if c.name == c.addr or kw.get("primary", False) or key not in self.contracts:
@@ -412,8 +416,12 @@ def sf_implies(ex, state, e):
     state.pc.append(a)
     try:
         b = ex.truthy(state, ex.ev(state, e.args[1]))
-    finally:
+        new = state.pc[n + 1:]
+    except BaseException:
         state.pc = state.pc[:n]
+        raise
+    # facts produced while evaluating the consequent (definitions of merged values, type facts) stay, guarded
+    state.pc = state.pc[:n] + [z3.Implies(a, x) for x in new]
     return VBool(z3.Implies(a, b))
 
 
